@@ -44,6 +44,8 @@ inductive Val where
   | none : Val
   /-- present optional field -/
   | some : Val → Val
+  /-- a signed field (Go `int` stored in one two's-complement byte: `LogDimensions.Rows/Cols`) -/
+  | int : Int → Val
   deriving Inhabited
 
 /-! ## Little-endian integers, hex digits -/
@@ -72,6 +74,20 @@ def hexPair (a b : Nat) : Option Nat :=
   match unhex a, unhex b with
   | some x, some y => some (16 * x + y)
   | _, _ => none
+
+/-! ## Signed bytes
+
+  `PlaintextMetaData.MarshalJSON` writes `uint8(m.LogDimensions.Rows)` (and `Cols`), Go's
+  conversion of an `int` to its low byte, i.e. the two's-complement byte; `UnmarshalJSON` reads
+  it back with `int(int8(byte))` (core/rlwe/metadata.go:225, :281). The signed values a byte
+  represents are exactly `[-128, 127]`; they are reachable (`RingPackingEvaluator.Split`
+  decrements `Cols`, so `{0,0}` becomes `Cols = -1`). -/
+
+/-- Go `uint8(z)` for an `int` `z`: the two's-complement byte. -/
+def toByte (z : Int) : Nat := (z % 256).toNat
+
+/-- Go `int(int8(b))` for a byte `b`. -/
+def fromByte (n : Nat) : Int := if n < 128 then (n : Int) else (n : Int) - 256
 
 /-- how a `"0x%02x"` field is read back by the Go code -/
 inductive HexMode where
@@ -122,6 +138,9 @@ inductive Fmt where
   | raw (n : Nat) : Fmt
   /-- one byte printed as two lowercase hex digits (the `%02x` of `"0x%02x"`) -/
   | hex2 (m : HexMode) : Fmt
+  /-- a signed byte (`Val.int z`, `-128 ≤ z ≤ 127`) printed as the two lowercase hex digits of
+      its two's-complement byte -/
+  | shex2 : Fmt
   /-- literal text `pre`, then `f`, then literal text `post` (JSON punctuation) -/
   | framed (pre : List Nat) (f : Fmt) (post : List Nat) : Fmt
   /-- `a` then `b` -/
@@ -148,6 +167,7 @@ def enc : Fmt → Val → List Nat
   | .uint w, .num n => leBytes w n
   | .raw _, .bytes bs => bs
   | .hex2 _, .num n => [hexDigit (n / 16 % 16), hexDigit (n % 16)]
+  | .shex2, .int z => [hexDigit (toByte z / 16 % 16), hexDigit (toByte z % 16)]
   | .framed pre f post, v => pre ++ enc f v ++ post
   | .pair a b, .pair x y => enc a x ++ enc b y
   | .vec _ w f, .list vs => leBytes w vs.length ++ (vs.map (enc f)).flatten
@@ -170,6 +190,7 @@ def size : Fmt → Val → Nat
   | .uint w, _ => w
   | .raw n, _ => n
   | .hex2 _, _ => 2
+  | .shex2, _ => 2
   | .framed pre f post, v => pre.length + size f v + post.length
   | .pair a b, .pair x y => size a x + size b y
   | .vec _ w f, .list vs => w + sumL (vs.map (size f))
@@ -212,6 +233,13 @@ def decG {σ : Type} (rd : Nat → σ → Option (List Nat × σ)) : Fmt → σ 
     | some ([a, b], s') =>
       match hexPair a b with
       | some n => some (.num (hexVal m n), s')
+      | none => none
+    | _ => none
+  | .shex2, s =>
+    match rd 2 s with
+    | some ([a, b], s') =>
+      match hexPair a b with
+      | some n => some (.int (fromByte n), s')
       | none => none
     | _ => none
   | .framed pre f post, s =>
@@ -370,6 +398,13 @@ def decInto : Fmt → Val → List Nat → Option (Val × List Nat)
         | _ => some (.num (hexVal m n), s')
       | none => none
     | _ => none
+  | .shex2, _, s =>
+    match readFlat 2 s with
+    | some ([a, b], s') =>
+      match hexPair a b with
+      | some n => some (.int (fromByte n), s')
+      | none => none
+    | _ => none
   | .framed pre f post, r, s =>
     match readFlat pre.length s with
     | none => none
@@ -501,6 +536,7 @@ def minSize : Fmt → Nat
   | .uint w => w
   | .raw n => n
   | .hex2 _ => 2
+  | .shex2 => 2
   | .framed pre f post => pre.length + minSize f + post.length
   | .pair a b => minSize a + minSize b
   | .vec _ w _ => w
@@ -527,6 +563,7 @@ def Shape : Fmt → Val → Prop
   | .uint _, v => ∃ n, v = .num n
   | .raw n, v => ∃ bs, v = .bytes bs ∧ bs.length = n
   | .hex2 _, v => ∃ n, v = .num n
+  | .shex2, v => ∃ z, v = .int z
   | .framed _ f _, v => Shape f v
   | .pair a b, v => ∃ x y, v = .pair x y ∧ Shape a x ∧ Shape b y
   | .vec _ _ f, v => ∃ vs, v = .list vs ∧ ∀ x ∈ vs, Shape f x
@@ -545,6 +582,7 @@ def WT : Fmt → Val → Prop
   | .uint w, v => ∃ n, v = .num n ∧ n < 256 ^ w
   | .raw n, v => ∃ bs, v = .bytes bs ∧ bs.length = n
   | .hex2 m, v => ∃ n, v = .num n ∧ n < hexBound m
+  | .shex2, v => ∃ z, v = .int z ∧ -128 ≤ z ∧ z ≤ 127
   | .framed _ f _, v => WT f v
   | .pair a b, v => ∃ x y, v = .pair x y ∧ WT a x ∧ WT b y
   | .vec k w f, v => ∃ vs, v = .list vs ∧ vs.length < 256 ^ w ∧
@@ -559,6 +597,7 @@ def wtb : Fmt → Val → Bool
   | .uint w, .num n => decide (n < 256 ^ w)
   | .raw n, .bytes bs => bs.length == n
   | .hex2 m, .num n => decide (n < hexBound m)
+  | .shex2, .int z => decide (-128 ≤ z) && decide (z ≤ 127)
   | .framed _ f _, v => wtb f v
   | .pair a b, .pair x y => wtb a x && wtb b y
   | .vec k w f, .list vs =>
@@ -618,7 +657,8 @@ def scale : Fmt :=
     (strBytes "\"}")
 
 /-- `rlwe.PlaintextMetaData` (core/rlwe/metadata.go:198). Value:
-    `(scale, (isBatched, (isBitReversed, (logRows, logCols))))`. -/
+    `(scale, (isBatched, (isBitReversed, (logRows, logCols))))`; `logRows`, `logCols` are
+    signed (`Val.int`), one two's-complement byte each. -/
 def ptMeta : Fmt :=
   .framed (strBytes "{\"Scale\":")
     (.pair scale
@@ -627,7 +667,7 @@ def ptMeta : Fmt :=
           (.framed (strBytes "\",\"IsBitReversed\":\"0x")
             (.pair (.hex2 .flag)
               (.framed (strBytes "\",\"LogDimensions\":[\"0x")
-                (.pair (.hex2 .byte) (.framed (strBytes "\",\"0x") (.hex2 .byte) []))
+                (.pair .shex2 (.framed (strBytes "\",\"0x") .shex2 []))
                 []))
             []))
         []))
